@@ -3,6 +3,7 @@
 mod util;
 mod sdq;
 mod sod;
+mod tlvv;
 mod win;
 
 use std::io::{BufRead, Write};
@@ -33,6 +34,7 @@ fn main() {
             "win" => win::run(line),
             "sdq" => sdq::run(line),
             "sod" => sod::run(line),
+            "tlvv" => tlvv::run(line),
             _ => {
                 eprintln!("unknown family {family}");
                 std::process::exit(2);
